@@ -1,5 +1,5 @@
 (* InterTD.v — mirror of analysis/inter/top_down_inter_analyzer.hpp over the interval domain
-   (after fixes/inter-1, inter-3): get_callee_entry, get_caller_continuation (with the
+   (after fixes/inter-1, inter-3, inter-6): get_callee_entry, get_caller_continuation (with the
    parallel propagation through fresh copies when caller and callee share names),
    calling_context::is_subsumed, default_context_sensitivity_policy::add, analyze_callee /
    analyze_function with summary reuse, the context-insensitive invariant tables (join_with),
@@ -322,9 +322,12 @@ Section TD.
       end
     end.
 
-  (* top_down_inter_analyzer::run(init) *)
+  (* top_down_inter_analyzer::run(init); after fixes/inter-6: an entry function of the recursive
+     set is analysed from top, as when it is called from another function (its recursive calls
+     are replaced by top and never analysed) *)
   Definition td_run (depth : nat) (entries : list nat) (init : env) : gst :=
-    fold_left (fun g f => pop (snd (td_fun depth f init (push f g)))) entries g0.
+    fold_left (fun g f => pop (snd (td_fun depth f (if nmem f recset then e_top else init) (push f g))))
+              entries g0.
 End TD.
 
 (* ------------------------------------------------------------------ the certificate checker
